@@ -598,8 +598,10 @@ class Dataset(AbstractDataset, dict, OpMixin, GetSetDelAttrMixin):
                 raise TypeError("mapper must be callable")
             iterkeys = [(old, mapper(old)) for old in ds.dims]
 
-        for old, new in iterkeys:
-            ds.axes[old].name = new
+        # look all axes up before renaming any of them (swaps, chains)
+        renamed = [(ds.axes[old], new) for old, new in iterkeys]
+        for ax, new in renamed:
+            ax.name = new
 
         if not inplace:
             return ds
